@@ -2,6 +2,7 @@ import GapicModel.Pinned.Tables
 import GapicModel.Pinned.Regexes
 import GapicModel.Pinned.CharClass
 import GapicModel.Regex.Match
+import GapicModel.Model.AddressT
 /-
 C12 — reserved-word and collision handling.
   gapic/utils/reserved_names.py (RESERVED_NAMES), gapic/schema/wrappers.py (Field.name,
@@ -186,5 +187,26 @@ not a proto-plus type -/
 def referenceModule (k : ImportKind) (module alias : String) : String :=
   let name := if alias = "" then module else alias
   if isProtoPlus k then name else module ++ "_pb2"
+
+/-- which branch of `Address.python_import` a (translated-model) address takes: the correspondence under which the hand-written
+`pythonImport` / `referenceModule` above are compared with the translation of the current source (Props/C12.lean, `hand_…_is_translated`) -/
+def kindOf (a : GapicModel.Model.AddressT.Addr) : ImportKind :=
+  if !a.naming.truthy then .python
+  else if GapicModel.PyRt.startswith (GapicModel.Model.AddressT.protoPackage a) a.naming.protoPackage then .own
+  else if GapicModel.Model.AddressT.isProtoPlus a then .plusDep
+  else .pb2
+
+/-! ### the module a library imports for a DEPENDENCY file against the module the dependency ships -/
+
+/-- `API.build` passes EVERY file descriptor of the request (own or dependency) through `disambiguate_keyword_sanitize_fname`; the module
+of a dependency type is then imported as such (proto-plus dependency, `proto-plus-deps`) or with `_pb2` appended (`Address.python_import`) -/
+def importedDepModule (visited : List String) (n : String) (plusDep : Bool) : String :=
+  let m := disambFile visited (visited.length + 2) n
+  if plusDep then m else m ++ "_pb2"
+
+/-- what exists on disk: a proto-plus dependency is a library written by this same generator (its own `API.build` run over the same file
+name); a plain dependency is written by protoc: `<name>_pb2.py`, whatever the name -/
+def shippedDepModule (visited : List String) (n : String) (plusDep : Bool) : String :=
+  if plusDep then disambFile visited (visited.length + 2) n else n ++ "_pb2"
 
 end GapicModel.Model.Names
